@@ -6,6 +6,7 @@ import (
 	"path/filepath"
 	"strconv"
 
+	"verifharness/chain"
 	"verifharness/run"
 	_ "verifharness/scen"
 )
@@ -52,6 +53,11 @@ func main() {
 			usage()
 		}
 		os.Exit(run.WorkerMain(os.Args[2], os.Args[3]))
+	case "crashchild":
+		if len(os.Args) < 5 {
+			usage()
+		}
+		os.Exit(chain.CrashChildMain(os.Args[2], os.Args[3], os.Args[4]))
 	case "replay":
 		if len(os.Args) < 3 {
 			usage()
